@@ -892,15 +892,24 @@ func sortedKeysP(m map[string]Plugin) []string {
 	return ks
 }
 
+// confirmedTimed counts time-bound failures that were confirmed in this process.
+var confirmedTimed int
+
 // runC18 executes the case; a failure that slowness could explain (a healthy plugin dropped
-// by one of nri's timeouts, a kill not yet visible) is confirmed by re-executing the same
-// case up to three times — it is a violation only if it fails every time.
+// by one of nri's timeouts, a kill not visible within the bound) is confirmed by
+// re-executing the same case, alone, on a fresh tree: three times for the first such failure
+// of the process, once for later ones. It is a violation only if every execution fails;
+// if one passes the case is counted as overloaded and not judged.
 func runC18(c C18Case) ev.Outcome {
 	v := runOnce(c)
 	if v.out.Fail == "" || !v.timeBound {
 		return v.out
 	}
-	for i := 0; i < 3; i++ {
+	reruns := 3
+	if confirmedTimed > 0 {
+		reruns = 1
+	}
+	for i := 0; i < reruns; i++ {
 		again := runOnce(c)
 		if again.out.Fail == "" {
 			o := again.out
@@ -914,6 +923,7 @@ func runC18(c C18Case) ev.Outcome {
 		}
 		v = again
 	}
+	confirmedTimed++
 	return v.out
 }
 
